@@ -301,6 +301,67 @@ def task_length():
 task_length.contract_fn = "calculus.Integrate.lenght"
 
 
+# --------------------------------------------------------------------------------------
+# engine B: Integrate.* with an explicit rule does not depend on the rules requested earlier in the same process (same number of nodes)
+# --------------------------------------------------------------------------------------
+INTEG_SCRIPT = """
+import sys, json
+from fractions import Fraction as F
+from compmec.nurbs import Curve, KnotVector
+from compmec.nurbs.calculus import Integrate
+seq = json.loads(sys.argv[1])
+n = int(sys.argv[2])
+kv = KnotVector([F(0), F(0), F(1), F(1), F(3), F(3)])          # a jump at u = 1
+curve = Curve([F(0), F(0), F(1), F(1), F(3), F(3)], [F(1), F(4), F(-2), F(7)])
+f = lambda u: sum((k + 1) * u ** k for k in range(2 * n))     # degree 2n - 1: exact only for Gauss-Legendre with n nodes
+out = []
+for m in seq:
+    a = Integrate.function(kv, f, m, n)
+    b = Integrate.scalar(curve, None, m, n)
+    out.append([m, repr(a), type(a).__name__, repr(b), type(b).__name__])
+print(json.dumps(out))
+"""
+
+
+def task_integrate_orders():
+    fn = "calculus.Integrate.function"
+    import json
+    import subprocess
+    import sys
+    methods = ["closed-newton-cotes", "open-newton-cotes", "chebyshev", "gauss-legendre"]
+
+    def run(seq, n):
+        r = subprocess.run([sys.executable, "-c", INTEG_SCRIPT, json.dumps(seq), str(n)], capture_output=True, text=True, timeout=300,
+                           env=dict(os.environ, PYTHONPATH=env.SRC, PYTHONWARNINGS="ignore"))
+        if r.returncode != 0:
+            raise RuntimeError(r.stderr[-300:])
+        return json.loads(r.stdout.strip().splitlines()[-1])
+    out = []
+    for n in (3, 4):
+        bad = []
+        try:
+            single = {m: run([m], n)[0][1:] for m in methods}
+            for m1 in methods:
+                res = run([m1] + [m for m in methods if m != m1] + [m1], n)
+                for row in res:
+                    if row[1:] != single[row[0]]:
+                        bad.append("after %s first: %s gives %s, alone it gives %s" % (m1, row[0], row[1:], single[row[0]]))
+            # exact data with the exact rules gives exact numbers
+            for m in methods[:2]:
+                if single[m][1] not in ("Fraction", "int") or single[m][3] not in ("Fraction", "int"):
+                    bad.append("%s on Fraction data returns %s / %s" % (m, single[m][1], single[m][3]))
+        except Exception as e:
+            bad.append("%s: %s" % (type(e).__name__, str(e)[:200]))
+        out.append(ob("%s:order-independent[nnodes=%d]" % (fn, n), fn, FAILED if bad else PROVED, "B", "fresh-process", 0.0,
+                      ("%d differences; first: %s" % (len(bad), bad[0])) if bad else
+                      "Integrate.function / Integrate.scalar with each of the 4 rules and %d nodes: identical after any other rule was used first (fresh interpreters)" % n,
+                      dict(kind="c10.integ-order", n=n) if bad else None))
+    return out + [{"_stats": dict(cases=2 * 8)}]
+
+
+task_integrate_orders.contract_fn = "calculus.Integrate.function"
+
+
 def shapes(tier):
     out = [(0, (0, 0, 0)), (0, (0, 1, 0)), (1, (0, 0, 0)), (1, (0, 1, 0)), (2, (1, 0, 0)), (2, (0, 2, 0)), (3, (0, 0, 0)), (2, (0, 3, 0)), (1, (2, 0, 0)), (3, (1, 0, 2))]
     if tier != "quick":
@@ -314,7 +375,7 @@ def tasks(tier, seed):
     nmax = 12 if tier == "quick" else 24
     ts = [(verify, (misc.CLOSED_LINSPACE, "heavy", "NodeSample.closed_linspace", None)),
           (verify, (misc.OPEN_LINSPACE, "heavy", "NodeSample.open_linspace", None)),
-          (task_memo_frames, ()), (task_orders, (nmax,)), (task_length, ())]
+          (task_memo_frames, ()), (task_orders, (nmax,)), (task_length, ()), (task_integrate_orders, ())]
     for name in FAMILIES:
         ts.append((task_rules, (name, nmax)))
     for p, cells in shapes(tier):
@@ -325,6 +386,9 @@ def tasks(tier, seed):
 
 def replay(o):
     w = o["witness"]
+    if w.get("kind") == "c10.integ-order":
+        r = [x for x in task_integrate_orders() if "id" in x and x["id"].endswith("[nnodes=%d]" % w["n"])][0]
+        return r["status"] == FAILED, "same result whatever rule was used before", r["detail"]
     if w["kind"] == "c10.rule":
         try:
             facts, rule = rule_facts(w["family"], w["n"])
